@@ -265,18 +265,50 @@ def selftest_mutants(rest):
                 name, prop, results[-1]['status'], cls[:1]))
             if p.returncode == 2:
                 log(out[-1500:])
+            _write_sensitivity(results, only, tier, t0)
         finally:
             shutil.rmtree(scratch, ignore_errors=True)
-    os.makedirs(core.EVIDENCE_DIR, exist_ok=True)
-    with open(os.path.join(core.EVIDENCE_DIR, 'sensitivity.json'), 'w',
-              encoding='utf-8') as fh:
-        json.dump({'results': results, 'tier': tier,
-                   'wall_s': round(time.time() - t0, 1)}, fh, indent=1,
-                  sort_keys=True)
+    _write_sensitivity(results, only, tier, t0)
     missed = [r for r in results if r['status'] != 'caught']
     log('selftest-mutants: %d/%d caught' % (len(results) - len(missed),
                                             len(results)))
     return 0 if not missed else 1
+
+
+_OLD_SENS = {}
+
+
+def _write_sensitivity(results, only, tier, t0):
+    os.makedirs(core.EVIDENCE_DIR, exist_ok=True)
+    spath = os.path.join(core.EVIDENCE_DIR, 'sensitivity.json')
+    wall = round(time.time() - t0, 1)
+    if 'd' not in _OLD_SENS:
+        try:
+            with open(spath, encoding='utf-8') as fh:
+                _OLD_SENS['d'] = json.load(fh)
+        except (OSError, ValueError):
+            _OLD_SENS['d'] = {}
+    old = _OLD_SENS['d']
+    if old:
+        # entries evaluated in this run replace their predecessors; entries of
+        # patches not (yet) evaluated in this run are kept, marked as earlier
+        try:
+            done = {r['mutant'] for r in results}
+            known = {n for n, _p, _f in _patch_list()}
+            kept = [r for r in old.get('results', [])
+                    if r['mutant'] not in done and r['mutant'] in known]
+            for r in kept:
+                r.setdefault('from_earlier_run', True)
+            merged = sorted(kept + results, key=lambda r: r['mutant'])
+            wall = round(old.get('wall_s', 0) + wall, 1)
+        except (ValueError, KeyError):
+            merged = results
+    else:
+        merged = results
+    with open(spath + '.tmp', 'w', encoding='utf-8') as fh:
+        json.dump({'results': merged, 'tier': tier, 'wall_s': wall}, fh,
+                  indent=1, sort_keys=True)
+    os.replace(spath + '.tmp', spath)
 
 
 # ---------------------------------------------------------------------------
